@@ -69,6 +69,12 @@ Times(a) == Cardinality({i \in 1..Len(att) : att[i] = a})
 RECURSIVE Rep(_, _)
 Rep(s, n) == IF n = 0 THEN <<>> ELSE s \o Rep(s, n - 1)
 
+\* A chain as it is declared in a configuration document may hold entries that cannot be built (unknown kind,
+\* unparsable or missing level, wrong-typed field): the lossy loader reports each one and drops it; the appender's
+\* chain is what is left, in its declared order ("X" marks such an entry).  The replay declares a fifth of the
+\* configurations that way, with such entries before a position of the chain and at its end.
+Effective(decl) == SelectSeq(decl, LAMBDA e : e # "X")
+
 Done == pc = "done"
 \* delivered iff first non-neutral response is Accept or all are neutral - once per attachment
 ChainLaw == Done => \A a \in Apps : delivered[a] = (IF Delivers(chain[a]) THEN Times(a) ELSE 0)
